@@ -11,7 +11,7 @@ TOL = 1e-12
 
 
 def arrays(np, thorough):
-    shapes = [(1,), (2,), (3,), (2, 2)] + ([(4,), (2, 3)] if thorough else [])
+    shapes = [(1,), (2,), (3,), (2, 2)] + ([(4,), (2, 3), (1, 1), (5,), (2, 1, 2), (7,)] if thorough else [])
     for sh in shapes:
         n = 1
         for k in sh:
@@ -242,7 +242,7 @@ def run(ctx):
     return core.finish(
         PROP, ctx.tier, ctx.seed, acc,
         rule='all arrays over {0,.5,1,3} (x seed scale) of shapes (1,),(2,),(3,),(2,2)%s x method x r{None,.5,2} x a{None,.5,2} x x0{None,0,1} x base{None,2,10} x cover_quantile{False,.5,(.5,.2)} x keep_sign; '
-             'non-trivial = the array has at least two distinct values' % (',(4,),(2,3)' if ctx.thorough else ''),
+             'non-trivial = the array has at least two distinct values' % (',(4,),(2,3),(1,1),(5,),(2,1,2),(7,) (3-letter sub-alphabet above 4 elements)' if ctx.thorough else ''),
         bounds={'values': [v * (1.0, 0.5, 2.0, 4.0)[ctx.seed % 4] for v in VALS], 'signed_arrays': '1-D arrays shifted down by one unit, with keep_sign'},
         assumptions=['documented formulas are those of the docstrings (reverse: (r - D) / r)',
                      'an explicitly requested cover_quantile target that is unsatisfiable or degenerate (derived scale not finite and positive) is counted and not judged',
